@@ -663,7 +663,7 @@ func c11After(rc *RunCtx, res *simrt.Result) {
 		ops = append(ops, porcupine.Operation{ClientId: op.Task, Input: op, Call: op.Call, Output: op.Ret, Return: op.Return})
 	}
 	if len(ops) <= 40 {
-		r := porcupine.CheckOperationsTimeout(c11Model(d.Cap1, d.Cap2, !d.Double && d.CBMode&1 == 0, !d.Double && d.CBMode&2 == 0), ops, 30*time.Second)
+		r := checkLinearizable(c11Model(d.Cap1, d.Cap2, !d.Double && d.CBMode&1 == 0, !d.Double && d.CBMode&2 == 0), ops, 30*time.Second)
 		if r == porcupine.Illegal {
 			rc.Violate("C11", "linearizability", "nonlinearizable:"+qn, "history is not linearizable w.r.t. the bounded-FIFO model: "+describeQ(d))
 		} else if r == porcupine.Unknown {
